@@ -141,12 +141,12 @@ xxDivideDouble(ULong *pqh, ULong *pql, ULong *pr,
 		ULong r = 0, th,tl;
 		DivideDouble(th, r, r, HI_HALF_LO(nh), d);
 		DivideDouble(tl, r, r, LO_HALF_LO(nh), d);
-		ql = COMBINE(th, tl);
+		qh = COMBINE(th, tl);
 		DivideDouble(th, r, r, HI_HALF_LO(nl), d);
 		DivideDouble(tl, r, r, LO_HALF_LO(nl), d);
 		ql = COMBINE(th, tl);
 
-		*pqh = 0;
+		*pqh = qh;
 		*pql = ql;
 		*pr  = r;
 		return;
